@@ -1,7 +1,8 @@
 (** Pinned statements of the C06 property theorems: compiled on every check, so a theorem cannot be
     weakened silently. *)
-From V Require Import Base.Util Gen.C06_tables_gen C06.Model C06.Spec C06.Proofs C06.ProofsMap C06.ProofsWriter C06.ProofsCli C06.ProofsDefs C06.ProofsDefsSchema C06.Corr C06.ProofsCorr C06.Properties C06.PropertiesDefs.
-From V Require Gql.Ast Ts.TsType C10.Model C10.SitesForC06.
+From V Require Import Base.Util Gen.C06_tables_gen C06.Model C06.Spec C06.Proofs C06.ProofsMap C06.ProofsWriter C06.ProofsCli C06.ProofsDefs C06.ProofsDefsSchema C06.Corr C06.ProofsCorr C06.ProofsLines C06.ProofsHolds C06.ProofsPaths C06.Properties C06.PropertiesDefs.
+From V Require C20.Model.
+From V Require Gql.Ast Ts.TsType C10.Model C10.ResolverProofs C10.SitesForC06.
 From V Require C14.Model.
 
 Check (C06_alphabet_decodes :
@@ -130,12 +131,52 @@ Check (C06_schema_definitions_are_mapped :
      Ts.TsType.is_raw_ident (Gql.Ast.iname (Gql.Ast.iv_name iv)) = true -> Gql.Ast.pbuiltin (Gql.Ast.ipos (Gql.Ast.iv_name iv)) = false ->
      mapped_in fmap st (Gql.Ast.iname (Gql.Ast.iv_name iv)) (conv_pos10 (Gql.Ast.ipos (Gql.Ast.iv_name iv))) (Gql.Ast.iname (Gql.Ast.iv_name iv)))).
 Check (C06_resolver_definitions_are_mapped :
-  forall fmap o doc ops st,
-  C10.Model.print_resolvers o 0 doc = C10.Model.Ok ops ->
+  forall fmap o n doc ops st,
+  C10.Model.print_resolvers o n doc = C10.Model.Ok ops ->
   sw_run fmap (map conv_wop10 ops) = Some st ->
-  forall td, In td (C10.Model.typedefs doc) -> C10.Model.is_input_def td = false ->
-    Gql.Ast.pbuiltin (Gql.Ast.ipos (Gql.Ast.typedef_name td)) = false ->
-    mapped_in fmap st (C10.Model.tname td) (conv_pos10 (Gql.Ast.ipos (Gql.Ast.typedef_name td))) (C10.Model.tname td)).
+  (forall td, In td (C10.Model.typedefs doc) -> C10.Model.is_input_def td = false ->
+     Gql.Ast.pbuiltin (Gql.Ast.ipos (Gql.Ast.typedef_name td)) = false ->
+     mapped_in fmap st (C10.Model.tname td) (conv_pos10 (Gql.Ast.ipos (Gql.Ast.typedef_name td))) (C10.Model.tname td)) /\
+  (forall d p nm impls dirs fields kw fd,
+     In (Gql.Ast.TDObject d p nm impls dirs fields kw) (C10.Model.typedefs (C10.ResolverProofs.resolver_doc n doc)) -> In fd fields ->
+     Ts.TsType.is_raw_ident (Gql.Ast.iname (Gql.Ast.fd_name fd)) = true -> Gql.Ast.pbuiltin (Gql.Ast.ipos (Gql.Ast.fd_name fd)) = false ->
+     mapped_in fmap st (Gql.Ast.iname (Gql.Ast.fd_name fd)) (conv_pos10 (Gql.Ast.ipos (Gql.Ast.fd_name fd))) (Gql.Ast.iname (Gql.Ast.fd_name fd)))).
+Check (C06_writer_segments_match_ops :
+  forall fmap os st, sw_run fmap os = Some st ->
+  exists es xs,
+    add_entries m0 es = Some (sw_map st) /\
+    decode_mappings (mbuf (sw_map st)) = Some (map seg_of_entry es) /\
+    expect fmap os = Some xs /\
+    Forall2 (ematch (c_buf (sw_cur st)) (nm_all (sw_names st))) es xs /\
+    entries_sorted es /\ Forall (at_prefix (c_buf (sw_cur st))) es).
+Check (C06_model_holds_writer :
+  forall fmap ops st, sw_run fmap ops = Some st ->
+  holds (CWriter fmap ops (Some (sw_buffers st))) = true).
+Check (C06_mappings_injective :
+  forall es es' m m',
+  add_entries m0 es = Some m -> add_entries m0 es' = Some m' -> mbuf m = mbuf m' ->
+  map seg_of_entry es = map seg_of_entry es').
+Check (C06_sources_resolve :
+  forall out src : str,
+  C20.Model.abs_ok (C20.Model.components out) = true -> C20.Model.is_file (C20.Model.components out) = true ->
+  C20.Model.abs_ok (C20.Model.components src) = true ->
+  exists rel, C20.Model.relative_s out src = Some rel /\ C20.Model.resolve_s out rel = C20.Model.normalize_s src).
+Check (C06_sm_sources_resolve :
+  forall file srcs rels,
+  C20.Model.abs_ok (C20.Model.components file) = true -> C20.Model.is_file (C20.Model.components file) = true ->
+  Forall (fun p => C20.Model.abs_ok (C20.Model.components p) = true) srcs ->
+  sm_sources file srcs = Some rels ->
+  Forall2 (fun rel src => C20.Model.resolve_s file rel = C20.Model.normalize_s src) rels srcs).
+Check (C06_model_holds_json :
+  forall file srcs rels,
+  sm_sources file srcs = Some rels ->
+  holds (CJson file srcs true (Some (file_name_s file, rels))) = true).
+Check (C06_cli_sources_resolve :
+  forall fs op output rels,
+  C20.Model.abs_ok (C20.Model.components output) = true -> C20.Model.is_file (C20.Model.components output) = true ->
+  Forall (fun p => C20.Model.abs_ok (C20.Model.components p) = true) (fs_schema fs ++ fs_ops fs) ->
+  cli_sources fs op output = Some rels ->
+  Forall2 (fun rel p => C20.Model.resolve_s output rel = C20.Model.normalize_s p) rels (sources_of fs op)).
 
 Print Assumptions C06_alphabet_decodes.
 Print Assumptions C06_alphabet_injective.
@@ -162,3 +203,10 @@ Print Assumptions C06_named_write_for_mapped.
 Print Assumptions C06_operation_definitions_are_mapped.
 Print Assumptions C06_schema_definitions_are_mapped.
 Print Assumptions C06_resolver_definitions_are_mapped.
+Print Assumptions C06_writer_segments_match_ops.
+Print Assumptions C06_model_holds_writer.
+Print Assumptions C06_mappings_injective.
+Print Assumptions C06_sources_resolve.
+Print Assumptions C06_sm_sources_resolve.
+Print Assumptions C06_model_holds_json.
+Print Assumptions C06_cli_sources_resolve.
